@@ -65,6 +65,17 @@ impl ZoneStore {
         Ok(Self::new(packet_store, metrics))
     }
 
+    /// Create a zone store on a caller-supplied database (verification harness only).
+    #[cfg(feature = "verif-hooks")]
+    pub(crate) fn verif_open(
+        db: redb::Database,
+        options: Options,
+        metrics: Arc<Metrics>,
+    ) -> Result<Self> {
+        let packet_store = SignedPacketStore::open(db, options, metrics.clone())?;
+        Ok(Self::new(packet_store, metrics))
+    }
+
     /// Configure a mainline DHT client for resolution of packets as a fallback.
     ///
     /// This will be used only as a fallback if there is no local info available.
@@ -116,9 +127,14 @@ impl ZoneStore {
             }
         }
 
+        #[cfg(feature = "verif-hooks")]
+        iroh_base::verif_hooks::point_async("zone:resolve:after_cache_miss", "").await;
+
         // Check persistent store
         if let Some(packet) = self.store.get(pubkey).await? {
             trace!(packet_timestamp = ?packet.timestamp(), "store hit");
+            #[cfg(feature = "verif-hooks")]
+            iroh_base::verif_hooks::point_async("zone:resolve:after_store_get", "").await;
             let mut cache = self.cache.lock().await;
             let result = cache.insert_and_resolve(&packet, name, record_type);
             return match result {
@@ -182,6 +198,8 @@ impl ZoneStore {
         let pubkey = PublicKeyBytes::from_signed_packet(&signed_packet);
         if self.store.upsert(signed_packet).await? {
             self.metrics.pkarr_publish_update.inc();
+            #[cfg(feature = "verif-hooks")]
+            iroh_base::verif_hooks::point_async("zone:insert:after_upsert", "").await;
             self.cache.lock().await.remove(&pubkey);
             Ok(true)
         } else {
